@@ -40,6 +40,38 @@ def global_parameter_reads(ctx):
     return out, total
 
 
+def parameter_resolution(ctx):
+    """assign_parameters in its two worlds (also run by C01, C02, C07: 'as the quadrature orders are raised' presupposes that
+    the order a user gives with the operator is the order the assembler integrates with)."""
+    hp = "bempp_cl/api/utils/helpers.py"
+    fn = ctx.repo.mod(hp).fn("assign_parameters")
+    p0 = arg_names(fn)[0]
+    from . import dispatch
+
+    r3 = ctx.rule("FX-PARAM-RESOLVE", "assign_parameters returns the parameter object it is given, and the global parameters only for None", 2)
+
+    class _Given:
+        def __repr__(self):
+            return "<the given parameter object>"
+
+    given = _Given()
+    for world, pv in (("parameters=None", None), ("parameters=<object>", given)):
+        loc, res = {}, "‹nothing›"
+        for e in dispatch.effects(fn.body, {p0: pv}, "assign_parameters"):
+            if e[0] == "set":
+                loc[e[1]] = e[2]
+            elif e[0] == "return":
+                t = (e[1] or "").replace(" ", "")
+                res = loc[t] if t in loc else (pv if t == p0 else t)
+        if pv is None:
+            okw = isinstance(res, str) and "GLOBAL_PARAMETERS" in res
+            why = "for parameters=None the function returns `%s`, expected the global parameters" % (res,)
+        else:
+            okw = res is given
+            why = "an explicitly given parameter object is not what the function returns (it returns `%s`): every operator built with parameters=<object> silently uses other settings" % (res,)
+        r3.check(okw, world, hp, "assign_parameters", fn.lineno, "assign_parameters, " + world, why)
+
+
 def parameter_provenance(ctx):
     r = ctx.rule("FX-GLOBAL-READ", "results are computed from the parameter object resolved once by assign_parameters: no other function reads GLOBAL_PARAMETERS", 4)
     reads, total = global_parameter_reads(ctx)
@@ -54,11 +86,12 @@ def parameter_provenance(ctx):
                "%s reads GLOBAL_PARAMETERS (%d time(s), lines %s) instead of the parameter object given at construction: the result depends on later changes of the global parameters" % (qn, len(lines), sorted(lines)[:6]))
     # the sanctioned resolution must hand out a snapshot: an alias of the live global object makes an operator built
     # with parameters=None follow every later change of the globals until it is first assembled
-    r2 = ctx.rule("FX-PARAM-SNAPSHOT", "assign_parameters(None) returns a copy of the global parameters taken at construction, not the live global object", 1)
     hp = "bempp_cl/api/utils/helpers.py"
     fn = ctx.repo.mod(hp).fn("assign_parameters")
-    defs = roles.Defs(fn)
     p0 = arg_names(fn)[0]
+    parameter_resolution(ctx)
+    r2 = ctx.rule("FX-PARAM-SNAPSHOT", "assign_parameters(None) returns a copy of the global parameters taken at construction, not the live global object", 1)
+    defs = roles.Defs(fn)
     St = roles.stores(fn.body, defs, lv=False)
     none_test = {"(%s Is None)" % p0, "(%sIsNone)" % p0}
     vals = []
